@@ -4,7 +4,7 @@
    inverses are small integers / multiples of 1/4, the harness logs 4 * wmi, 4 * template,
    4 * amplitude. Channels are logged 1-based (0 = the unused marker -1 of sparse column tables).
    kind "dense":  {id, T, wmi4, unw, pos, shank, nclosest, thr, explicit, ch, tmpl, amp, best, ch2, tmpl2}
-   kind "sparse": {id, Ts, cols, wmi4, unw, ch, tmpl, amp}                                      *)
+   kind "sparse": {id, Ts, cols, wmi4, unw, ch, tmpl, amp, best}                                      *)
 EXTENDS Templates
 VARIABLE i
 Trace == ndJsonDeserialize(TraceFile)
@@ -17,7 +17,11 @@ Check1(r) ==
        /\ (r.explicit # <<>>) => Clause(r.id, "ValidExplicit", ValidExplicit(r, U, r.explicit))
        /\ Clause(r.id, "get_template_channels", r.ch2 = r.ch)
        /\ Clause(r.id, "get_template_waveforms", r.tmpl2 = r.tmpl)
-  ELSE Clause(r.id, "ValidSparse", ValidSparse(r, r.Ts, r.cols, r.wmi4, r.unw))
+  ELSE /\ Clause(r.id, "ValidSparse", ValidSparse(r, r.Ts, r.cols, r.wmi4, r.unw))
+       \* the peak channel named by the record is a listed channel of maximal amplitude (relational on ties:
+       \* with equal amplitudes it need not be the one listed first)
+       /\ Clause(r.id, "SparseBest", r.ch # <<>> =>
+                    \E q \in 1..Len(r.ch) : q \in 1..Len(r.amp) /\ r.ch[q] = r.best /\ r.amp[q] = r.amp[1])
 TNext == /\ i <= Len(Trace) /\ Check1(Trace[i]) /\ TLCSet(2, i) /\ i' = i + 1 /\ UNCHANGED vars
 TSpec == TInit /\ [][TNext]_<<vars, i>>
 Accepted == Verdict(TLCGet(2)) /\ TLCGet(2) = Len(Trace)
